@@ -607,4 +607,7 @@ func generate() {
 	tableCases(g.Fork())
 	fieldCases(g.Fork())
 	groupCases(g.Fork())
+	// after the existing streams, each from its own fork: the cases above are the same as before for a seed
+	addDirected(g.Fork())
+	liftDirected(g.Fork())
 }
